@@ -37,7 +37,11 @@ UNIT_PARS = {"const": ["c"], "line": ["a", "b"], "quad": ["a", "b", "c"], "cubic
 def strat(draw, tier="quick"):
     mini = draw(st.sampled_from(["iminuit", "iminuit", "scipy"]))
     t = draw(st.sampled_from(["xy", "xy", "xy", "indexed"]))
-    if t == "xy":
+    if t == "xy" and draw(st.integers(0, 5)) == 0:
+        # many points (the other generators stop at 8): the unit factor below then acts on sums / products over 20-120 terms
+        spec = draw(S.xy_long_spec(costs=("chi2", "chi2_covariance"), minimizers=(mini,), n_points=(20, 120) if tier == "quick" else (20, 300), y_scales=(None,)))
+        n = len(spec["x"])
+    elif t == "xy":
         spec = draw(S.xy_spec(families=["line", "quad", "cubic", "sincos", "expo", "power"], costs=("chi2", "chi2", "chi2_covariance"), n_sources=(1, 3), x_errors=True,
                               model_sources=False, limits=True, minimizers=(mini,), min_points=6, sigma_rel=(0.005, 0.05), noise_scale=0.7, permute_params=False))
         n = len(spec["x"])
